@@ -174,7 +174,14 @@ theorem All_splitDoc (n : Nat) (d : Doc) (h : All (identQ q) d) :
         simp [hp.1, this.1, this.2]
       · simp [hp.2]
 @[simp] theorem All_verticaSplice (hint : Str) (d : Doc) (h : All (identQ q) d) : All (identQ q) (verticaSplice hint d) := by
-  simp [verticaSplice, (All_splitDoc q 7 d h).1, (All_splitDoc q 6 d h).2]
+  simp [verticaSplice, (All_splitDoc q _ d h).1, (All_splitDoc q _ d h).2]
+
+@[simp] theorem All_hinted (fl : QFlags) (d : Doc) (h : All (identQ q) d) : All (identQ q) (hinted fl d) := by
+  unfold hinted; split
+  · split
+    · exact All_verticaSplice q _ d h
+    · exact h
+  · exact h
 
 end leaves
 
